@@ -109,8 +109,24 @@ def history(ctx, steps):
         elif k < 0.6:
             s.op(0, 'gc', None)
         elif k < 0.7 and len(cur) >= 2:
-            x = rng.randrange(len(cur) - 1)
-            s.op(0, 'swap', x, x + 1)
+            snap = {u: tt_by_name(u) for u in held}
+            if rng.random() < 0.5:
+                x = rng.randrange(len(cur) - 1)
+                s.op(0, 'swap', x, x + 1)
+            else:
+                # a client reads the order, permutes it and hands it back (the harness does
+                # this through `var_levels` every other time)
+                lv = list(range(len(cur)))
+                rng.shuffle(lv)
+                target = dict(zip(cur, lv))
+                s.op(0, 'reorder', target)
+                ctx.count('reorder-to-order')
+                if s.ok() and {int(x_[1:]): l for x_, l in M.b.vars.items()} != target:
+                    ctx.violation('C14:order-not-reached', f'reorder({target}) left {M.b.vars}', M.case())
+            for u, old in snap.items():
+                if tt_by_name(u) != old:
+                    ctx.violation('C14:function-changed', f'reference {u} changed by a swap/reorder', M.case())
+                    break
         elif k < 0.8 and held:
             u = rng.choice(list(held))
             s.op(0, 'decref', u)
@@ -161,6 +177,41 @@ def history(ctx, steps):
         for _ in range(c):
             s.op(0, 'decref', u)
     ctx.sample(dict(stream=s.label, first_lines=s.lines[:12]))
+
+
+def order_roundtrip(ctx, n, start, target):
+    """the order read through `var_levels`, permuted by the client and handed back to
+    `reorder`: the four views describe the requested bijection and the functions are intact"""
+    s = ctx.session(f'order round trip n={n} {start}->{target}')
+    s.impl.vl_always = True
+    M = Mgr(ctx, None, n, start, session=s)
+    rng = ctx.rng
+    refs = []
+    for _ in range(2):
+        t = rng.getrandbits(1 << n)
+        u = M.build(t)
+        if u is not None:
+            M.op('incref', u)
+            refs.append((u, t))
+    M.op('reorder', dict(zip(range(n), target)))
+    ctx.case(('order-roundtrip', n, tuple(start), tuple(target)), True)
+    ctx.count('order-roundtrip')
+    if not views_ok(ctx, M, 'after reorder(var_levels permuted)'):
+        return
+    if [M.b.vars[vname(v)] for v in range(n)] != list(target):
+        ctx.violation('C14:order-not-reached', f'requested {target}, vars = {M.b.vars}', M.case())
+    for u, t in refs:
+        if M.tt(u) != t:
+            ctx.violation('C14:function-changed', f'reference {u} changed by the reordering', M.case())
+    # names still denote their variables
+    for v in range(n):
+        x = M.op('var', v)
+        if x is None or M.tt(x) != T.var(v, n):
+            ctx.violation('C14:function-changed', f'var(v{v}) does not denote v{v} after the reordering', M.case())
+            break
+    M.check_table('C14:not-canonical')
+    for u, _ in refs:
+        M.op('decref', u)
 
 
 def declare_orders(ctx, n, perm, by_constructor):
@@ -250,6 +301,7 @@ def autoref_add_var(ctx, n):
 
 def run(ctx):
     q = ctx.quick
+    rng = ctx.rng
     import itertools
     for n in (1, 2, 3):
         autoref_add_var(ctx, n)
@@ -260,3 +312,7 @@ def run(ctx):
     gen.undeclare_scenarios(ctx, 'C14:not-canonical', 'C14', quick=q)
     for _ in range(40 if q else 400):
         history(ctx, 30 if q else 60)
+    for n in (3, 4):
+        perms = gen.orders(n)
+        for _ in range(8 if q else 80):
+            order_roundtrip(ctx, n, rng.choice(perms), rng.choice(perms))
